@@ -484,6 +484,160 @@ theorem pwi_tagged (skip : Bool) (pre : List (Ev Val)) (rs : List Val) (outs : L
       rw [← hpre, hc, hl'] at ih'
       simp [tagFrom, Impl.pwi, htake, hc, oks_getElem_mid, ih']
 
+/-! ## `assign` on a dict record with plain names: the frame -/
+
+theorem lookup_upsert (m n : String) (v : Val) (kvs : List (String × Val)) :
+    lookup m (upsert n v kvs) = if m = n then some v else lookup m kvs := by
+  induction kvs with
+  | nil => by_cases h : m = n <;> simp [upsert, lookup, h, eq_comm]
+  | cons kv rest ih =>
+    obtain ⟨k, w⟩ := kv
+    by_cases hk : k = n
+    · by_cases h : m = n
+      · simp [upsert, lookup, hk, h]
+      · have : ¬ n = m := fun e => h e.symm
+        simp [upsert, lookup, hk, h, this]
+    · by_cases h : m = n
+      · subst h
+        simp [upsert, lookup, hk, ih]
+      · by_cases hkm : k = m
+        · simp [upsert, lookup, hk, h, hkm]
+        · simp [upsert, lookup, hk, h, hkm, ih]
+
+theorem setPath_dict_name (kvs : List (String × Val)) (n : String) (v : Val) :
+    setPath (.dict kvs) [.name n] v = .ok (.dict (upsert n v kvs)) := by
+  simp [setPath, asKeyError, bind, Except.bind]
+
+/-- the result of assigning `outs` to the plain names `names` of a dict, left to right -/
+def assignFlat (kvs : List (String × Val)) : List String → List Val → Option (List (String × Val))
+  | [], [] => some kvs
+  | n :: ns, o :: os => assignFlat (upsert n o kvs) ns os
+  | _, _ => none
+
+theorem routeAll_flat (kvs : List (String × Val)) (names : List String) (outs : List Val) :
+    Ref.routeAll (.dict kvs) (names.map fun n => OutKey.key (.name n)) outs
+      = match assignFlat kvs names outs with
+        | some k => .ok (.dict k)
+        | none => .error .value := by
+  induction names generalizing kvs outs with
+  | nil => cases outs <;> simp [Ref.routeAll, assignFlat]
+  | cons n ns ih =>
+    cases outs with
+    | nil => simp [Ref.routeAll, assignFlat]
+    | cons o os =>
+      simp [Ref.routeAll, assignFlat, Ref.route, setKey, setPath_dict_name, bind, Except.bind, ih]
+
+theorem assignFlat_frame (kvs : List (String × Val)) (names : List String) (outs : List Val)
+    (k : List (String × Val)) (h : assignFlat kvs names outs = some k) :
+    (∀ m, m ∉ names → lookup m k = lookup m kvs) ∧
+    (∀ m, (lookup m k).isSome → m ∈ names ∨ (lookup m kvs).isSome) ∧
+    (∀ m ∈ names, (lookup m k).isSome) ∧ names.length = outs.length := by
+  induction names generalizing kvs outs with
+  | nil =>
+    cases outs with
+    | nil => simp [assignFlat] at h; subst h; simp
+    | cons o os => simp [assignFlat] at h
+  | cons n ns ih =>
+    cases outs with
+    | nil => simp [assignFlat] at h
+    | cons o os =>
+      simp only [assignFlat] at h
+      obtain ⟨h1, h2, h3, h4⟩ := ih _ _ h
+      refine ⟨?_, ?_, ?_, by simp [h4]⟩
+      · intro m hm
+        have hmn : m ≠ n := fun e => hm (by simp [e])
+        have hms : m ∉ ns := fun e => hm (by simp [e])
+        rw [h1 m hms, lookup_upsert]; simp [hmn]
+      · intro m hm
+        rcases h2 m hm with hin | hs
+        · exact Or.inl (by simp [hin])
+        · rw [lookup_upsert] at hs
+          by_cases hmn : m = n
+          · exact Or.inl (by simp [hmn])
+          · simp [hmn] at hs; exact Or.inr hs
+      · intro m hm
+        by_cases hms : m ∈ ns
+        · exact h3 m hms
+        · have hmn : m = n := by simpa [hms] using hm
+          rw [h1 m hms, lookup_upsert]; simp [hmn]
+
+/-! ## the builder -/
+
+theorem mkTreeFn_fields {kind : OpKind} {fn : Option UFn} {s0 : Nat} {inp : Build.InSpec}
+    {out : List OutKey} {fb b : Nat} {op : Op}
+    (h : Build.mkTreeFn kind fn s0 inp out fb b = .ok op) :
+    op.kind = kind ∧ op.outKeys = out ∧ op.fnBatch = fb ∧ op.batch = b ∧
+      op.inKeys = inp.normalize.2 ∧ op.argNames = inp.normalize.1 ∧ (fb ≠ 0 → b ≠ 0) := by
+  unfold Build.mkTreeFn at h
+  simp only [bind, Except.bind, pure, Except.pure, throw, throwThe, MonadExceptOf.throw] at h
+  split at h
+  · cases h
+  · rename_i hfb
+    split at h
+    · cases h
+    · split at h
+      · cases h
+      · split at h
+        · cases h
+        · cases h
+          refine ⟨rfl, rfl, rfl, rfl, rfl, rfl, ?_⟩
+          intro hne hb
+          exact hfb (by simp [hne, hb])
+
+theorem cleanB_sound (ignore : Bool) (evs : List (Ev Val)) (h : Ref.cleanB ignore evs = true) :
+    Ref.Clean ignore evs := by
+  intro e he
+  have := (List.all_eq_true.mp h) _ he
+  simpa using this
+
+theorem cleanRunB_sound (ignore : Bool) (ops : List Op) (evs : List (Ev Val))
+    (h : Ref.cleanRunB ignore ops evs = true) : Ref.CleanRun ignore ops evs := by
+  induction ops generalizing evs with
+  | nil => exact cleanB_sound ignore evs h
+  | cons op ops ih =>
+    simp only [Ref.cleanRunB, Bool.and_eq_true] at h
+    exact ⟨cleanB_sound ignore evs h.1, ih _ h.2⟩
+
+/-! ## vocabulary and helpers for the C08 statements -/
+
+/-- two source outcomes that an operator cannot tell apart: the same error, or records with the
+same selected inputs -/
+def SameInputs (op : Op) : Ev Val → Ev Val → Prop
+  | .ok r, .ok r' => getInputs op r = getInputs op r'
+  | .error e, .error e' => e = e'
+  | _, _ => False
+
+/-- element-wise relation of two streams of the same length -/
+inductive Pointwise {α β : Type} (R : α → β → Prop) : List α → List β → Prop
+  | nil : Pointwise R [] []
+  | cons {a b l l'} : R a b → Pointwise R l l' → Pointwise R (a :: l) (b :: l')
+
+/-- the arguments `sink.write` receives for a record whose selected inputs are `ins` -/
+def writeArgs (op : Op) (ins : List Val) : List Val × List (String × Val) :=
+  if op.argNames.isEmpty then (ins, []) else ([], op.argNames.zip ins)
+
+/-- the builder call is rejected (an exception at construction) -/
+def Rejected (r : Except ErrKind Build.St) : Prop := ∃ e, r = .error e
+
+theorem rejected_bind_add (st : Build.St) (hagg : st.hasAgg = true) (x : Except ErrKind Op) :
+    Rejected (x >>= fun fn => st.add fn) := by
+  cases x with
+  | error e => exact ⟨e, rfl⟩
+  | ok op => exact ⟨.value, by simp [bind, Except.bind, Build.St.add, hagg]⟩
+
+theorem checkAssignKeys_single (k : Key) (existing : List Key) :
+    Build.checkAssignKeys [.key k] existing =
+      if existing.any (Build.keyEq k) then .error .key
+      else if (existing ++ [k]).any (Build.keyEq .self) && decide ((existing ++ [k]).length > 1)
+        then .error .key else .ok () := by
+  by_cases hdup : existing.any (Build.keyEq k) = true
+  · simp [Build.checkAssignKeys, Build.flatKeys, Build.insertKey, hdup]
+  · have hi : Build.insertKey k existing = existing ++ [k] := by simp [Build.insertKey, hdup]
+    have hnew : List.foldl (fun a k => Build.insertKey k a) [] (Build.flatKeys [OutKey.key k]) = [k] := by
+      simp [Build.flatKeys, Build.insertKey]
+    unfold Build.checkAssignKeys
+    simp only [hnew, List.any_cons, List.any_nil, Bool.or_false, hdup, List.foldl_cons, List.foldl_nil, hi]
+
 /-! ## vocabulary and helpers for C12 -/
 
 /-- is this source outcome an element that the operator (in state `s`) skips? -/
